@@ -82,13 +82,20 @@ def render_expr(e, syntax):
     return '{{ %s }}' % expr_src(e, syntax)
 
 
+def render_guard(e, syntax):
+    # a guard must be an expression string, even for a literal
+    if syntax == 'yaql':
+        return '<%% %s %%>' % expr_src(e, syntax)
+    return '{{ %s }}' % expr_src(e, syntax)
+
+
 def _routes(rs, syntax):
     out = []
     for r in rs:
         if r.get('guard') is None:
             out.append(r['to'])
         else:
-            out.append({r['to']: render_expr(r['guard'], syntax)})
+            out.append({r['to']: render_guard(r['guard'], syntax)})
     return out
 
 
@@ -197,11 +204,17 @@ def gen_dag(rng, n_tasks=None, p_join=0.35, p_cycle=0.0, p_defaults=0.15, p_cmd=
             t[rng.choice(['on_success', 'on_error', 'on_complete'])].append(
                 {'to': rng.choice(['fail', 'succeed', 'noop']), 'guard': None})
     prog = {'name': 'wf', 'type': 'direct', 'tasks': tasks, 'syntax': 'yaql'}
-    if rng.random() < p_defaults:
+    if rng.random() < p_defaults and n >= 2:
+        # task-defaults route to the LAST task, which gets no on-clauses of its own, so the
+        # defaults cannot close a cycle (a join inside an unsatisfiable cycle is a deadlocked
+        # definition, outside the property's grammar of DAGs and bounded cycles)
+        last = tasks[-1]
+        for clause in ('on_success', 'on_error', 'on_complete'):
+            last[clause] = []
         d = {}
         for clause in ('on_success', 'on_error', 'on_complete'):
             if rng.random() < 0.5:
-                d[clause] = [{'to': rng.choice(names[1:] or names), 'guard': None}]
+                d[clause] = [{'to': last['name'], 'guard': None}]
         if d:
             prog['defaults'] = d
     # joins: decided after all edges are known (inbound computed with defaults semantics)
@@ -209,7 +222,7 @@ def gen_dag(rng, n_tasks=None, p_join=0.35, p_cycle=0.0, p_defaults=0.15, p_cmd=
     for t in tasks:
         c = inb[t['name']]
         if c >= 2 and rng.random() < 0.8 or (c == 1 and rng.random() < p_join * 0.3):
-            kind = rng.choice(['all', 'all', 'all', 'one', 'num'])
+            kind = rng.choice(['all', 'all', 'all', 'all', 'all', 'all', 'one', 'num'])
             if kind == 'num':
                 t['join'] = rng.randint(1, c)
             else:
@@ -237,3 +250,65 @@ def inbound_counts(prog):
             if nm in cnt:
                 cnt[nm] += 1
     return cnt
+
+
+# ----------------------------------------------------------------------------- full programs
+VARS = ['v0', 'v1', 'v2', 'v3']
+
+
+def gen_expr(rng, depth=0, p_bad=0.02, bool_only=False):
+    r = rng.random()
+    if r < p_bad:
+        return ['bad']
+    if bool_only:
+        k = rng.choice(['eq', 'eq', 'not', 'lit'])
+        if k == 'lit':
+            return ['lit', rng.choice([True, True, False])]
+        if k == 'not' and depth < 2:
+            return ['not', gen_expr(rng, depth + 1, 0, True)]
+        return ['eq', ['var', rng.choice(VARS + ['x'])], ['lit', rng.choice([0, 1, 2, 'a', None])]]
+    k = rng.choice(['lit', 'lit', 'var', 'var', 'res'])
+    if k == 'lit':
+        return ['lit', rng.choice([0, 1, 2, 'a', 'b', None, True, [1, 2], {'k': 1}, {'k': {'m': 2}}])]
+    if k == 'var':
+        return ['var', rng.choice(VARS + ['x']) if rng.random() > p_bad else 'nope']
+    return ['res']
+
+
+def gen_program(rng, n_tasks=None, p_fail=0.12, p_guard=0.3, p_publish=0.6, p_cmd=0.04, p_defaults=0.15,
+                p_bad=0.02, syntax=None, cyclic=False):
+    prog = gen_dag(rng, n_tasks, p_cycle=0.0, p_defaults=p_defaults, p_cmd=p_cmd)
+    prog['syntax'] = syntax or rng.choice(['yaql', 'yaql', 'jinja'])
+    # every variable the expressions mention is a declared input with a default, so that a
+    # reference is an error only when the generator asks for one ('nope', p_bad)
+    prog['input'] = [['x', rng.choice([0, 1, 2, 'a'])]] + [[v, rng.choice([0, 1, None, 'a'])] for v in VARS]
+    if rng.random() < 0.3:
+        prog['vars'] = {'w0': rng.choice([0, 1, 'a'])}
+    for t in prog['tasks']:
+        r = rng.random()
+        if r < p_fail:
+            t['action'] = ['fail']
+        elif r < 0.7:
+            t['action'] = ['echo', gen_expr(rng, p_bad=p_bad)]
+        if rng.random() < p_publish:
+            t['publish'] = {rng.choice(VARS): gen_expr(rng, p_bad=p_bad) for _ in range(rng.randint(1, 2))}
+        if rng.random() < 0.2:
+            t['publish_on_error'] = {rng.choice(VARS): gen_expr(rng, p_bad=p_bad)}
+        for clause in ('on_success', 'on_error', 'on_complete'):
+            for rt in t[clause]:
+                if rng.random() < p_guard:
+                    rt['guard'] = gen_expr(rng, p_bad=p_bad, bool_only=True)
+    if rng.random() < 0.6:
+        prog['output'] = {'o%d' % i: ['var', rng.choice(VARS + ['x'])] for i in range(rng.randint(1, 2))}
+    return prog
+
+
+def gen_oracle_table(rng, prog, p_err=0.15, p_cancel=0.0):
+    tbl = {}
+    for t in prog['tasks']:
+        r = rng.random()
+        if r < p_err:
+            tbl['%s:0' % t['name']] = ['error']
+        elif r < p_err + p_cancel:
+            tbl['%s:0' % t['name']] = ['cancel']
+    return tbl
